@@ -55,6 +55,7 @@ func freePorts(n int) ([]int, error) {
 type instOpts struct {
 	dir       string // store directory (created); empty = temp dir
 	id        string
+	genID     bool // leave Options.ID empty: the store generates the root id itself (the production default)
 	authToken string
 	clients   bool // add client.DefaultClients
 	storeFile string
@@ -91,7 +92,7 @@ func startInstanceOnce(o instOpts) (*instance, error) {
 		file = filepath.Join(dir, "siot.sqlite")
 	}
 	id := o.id
-	if id == "" {
+	if id == "" && !o.genID {
 		id = "inst-" + strconv.Itoa(ports[0])
 	}
 	opts := server.Options{
